@@ -165,6 +165,17 @@ Cat(path, kind, cs, fx) ==
 RechunkOK(full, pre, res) == /\ pre.o # "ok" => full.o # "ok"
                              /\ pre.o = "ok" => (res.o = "ok") = (full.o = "ok") /\ (full.o = "ok" => res.v = full.v)
 
+(* Concatenation is a FUNCTION of the chunk sequence: calling it does not modify its inputs, a result does not change   *)
+(* afterwards, and calling it again on the very same chunk values (or on a prefix result obtained earlier) gives what    *)
+(* it gives on fresh values.  sh = [in, whole, pre, res, ref] are digests recorded while the whole sequence, every       *)
+(* split and the whole sequence again were concatenated ON THE SAME chunk values (see the harness); "" when satisfied.    *)
+WhyImpure(sh) ==
+  IF \E j \in 1..Len(sh.in) : sh.in[j] # sh.in[1] THEN "input-chunk-modified"
+  ELSE IF sh.whole[1] # sh.whole[3] \/ \E i \in 1..Len(sh.pre) : sh.pre[i][1] # sh.pre[i][2] THEN "earlier-result-changed"
+  ELSE IF sh.whole[1] # sh.ref.whole \/ sh.whole[2] # sh.ref.whole \/ sh.pre # [i \in 1..Len(sh.pre) |-> <<sh.ref.pre[i], sh.ref.pre[i]>>]
+          \/ sh.res # sh.ref.res THEN "depends-on-earlier-calls"
+  ELSE ""
+
 (* arrival order of text and tool-call arguments, merging by index; and the field rules that the property record names *)
 (* for message concatenation (role / name / id consistency, usage max, finish reason last, extras merged per key)      *)
 ExpectCalls(calls, r) ==   \* r: the tool calls of the result
